@@ -12,7 +12,7 @@ def check(p):
 
 for W in sys.argv[1:]:
     pid = 'C' + W[1:]
-    for k, (v, w) in enumerate((('a', 'o'), ('b', 'p'))):
+    for k, (v, w) in enumerate((('a', 'q'), ('b', 'r'))):
         conf = open('/tmp/wt/%s/_seed/confirm_%s.txt' % (W, v)).read()
         ok = 'demo_orig exit=0' in conf and '176/176' in conf and 'demo_changed exit=1' in conf
         if not ok:
